@@ -23,6 +23,7 @@ import (
 // redirect to the authenticator and confirms (or tries to), then reuses the saved proxy cookie.
 
 type c19World struct {
+	userGroups   []string // the groups the identity provider reports for the user (nil = [eng])
 	proxy        *harness.ProxyEnv
 	auth         *harness.AuthEnv
 	authSrv      *httptest.Server
@@ -34,7 +35,10 @@ type c19World struct {
 	V            time.Duration
 }
 
-func newC19World() *c19World {
+func newC19World() *c19World { return newC19WorldYAML("") }
+
+// newC19WorldYAML: the same pair of services with another upstream document for the proxy ("" = the usual one).
+func newC19WorldYAML(doc string) *c19World {
 	w := &c19World{V: 60 * time.Second}
 	a, err := harness.NewAuthEnv(harness.AuthOpts{EmailDomains: []string{"corp.test"}, RootDomains: []string{"sso.test"}, Lifetime: time.Hour})
 	if err != nil {
@@ -45,6 +49,9 @@ func newC19World() *c19World {
 	y := "- service: svca\n  default:\n    from: " + hostA + "\n    to: {{backend:a}}\n    options:\n      allowed_email_domains:\n        - corp.test\n" +
 		// one upstream (one provider instance) serving several hosts
 		"- service: tenants\n  default:\n    from: '^tenant-(a|b)\\.sso\\.test$'\n    to: {{backend:a}}\n    type: rewrite\n    options:\n      allowed_email_domains:\n        - corp.test\n"
+	if doc != "" {
+		y = doc
+	}
 	p, err := harness.NewProxyEnv(harness.ProxyOpts{YAML: y, Backends: []string{"a"}, TemplateVars: map[string]string{}, Valid: w.V,
 		ProviderExternal: "https://" + harness.AuthHost, ProviderInternal: w.authSrv.URL})
 	if err != nil {
@@ -96,7 +103,11 @@ func (w *c19World) login(revokeAnswer func() harness.AuthAnswer) (proxyCookie, a
 				a = ans(200, fmt.Sprintf(`{"access_token":"idp-access-token-%d",%s"expires_in":3600,"id_token":"x.y.z"}`, w.tokenGen, rt))
 			}
 		case "userinfo":
-			a = ans(200, `{"email":"bob@corp.test","email_verified":true,"groups":["eng"]}`)
+			groups := []string{"eng"}
+			if w.userGroups != nil {
+				groups = w.userGroups
+			}
+			a = ans(200, harness.JSON(map[string]interface{}{"email": "bob@corp.test", "email_verified": true, "groups": groups}))
 		case "introspect":
 			a = ans(200, fmt.Sprintf(`{"active":%v}`, !w.revoked))
 		case "revoke":
@@ -202,6 +213,8 @@ func c19Run(c *fw.Ctx) {
 		// the same upstream or on this very host
 		hostV := []string{hostA, "tenant-a.sso.test"}[x.Choose("host", 2)]
 		earlier := []string{"", "tenant-b.sso.test", hostV}[x.Choose("earlier-sign-out-on", 3)]
+		// the session cookie presented was issued for this host, or for a sibling (a domain-wide cookie)
+		cookieHost := []string{hostV, "tenant-b.sso.test", "b.sso.test"}[x.Choose("cookie-issued-for", 3)]
 		setNow(0)
 		if earlier != "" {
 			w.proxy.Do(harness.NewRequest("GET", "/oauth2/sign_out", earlier, nil, nil))
@@ -215,7 +228,7 @@ func c19Run(c *fw.Ctx) {
 		}
 		future := harness.At(time.Hour)
 		sealed := w.proxy.Seal(&sessions.SessionState{ProviderSlug: w.auth.Slug, ProviderType: "sso", AccessToken: "at", RefreshToken: "rt", LifetimeDeadline: future, RefreshDeadline: future, ValidDeadline: future,
-			Email: "bob@corp.test", User: "bob", AuthorizedUpstream: hostV})
+			Email: "bob@corp.test", User: "bob", AuthorizedUpstream: cookieHost})
 		h := http.Header{"Cookie": {harness.CookieName + "=" + sealed}}
 		for k, v := range visit.h {
 			h[k] = v
@@ -229,11 +242,11 @@ func c19Run(c *fw.Ctx) {
 		if !owned {
 			return
 		}
-		d := map[string]interface{}{"request": method + " " + target, "host": hostV, "earlier_sign_out_on": earlier, "headers": visit.name, "status": r.Status, "location": r.Location}
+		d := map[string]interface{}{"request": method + " " + target, "host": hostV, "cookie_issued_for": cookieHost, "earlier_sign_out_on": earlier, "headers": visit.name, "status": r.Status, "location": r.Location}
 		viol := func(key, what string) {
 			c.Res.Violate(fw.Violation{Property: "C19", Key: "C19/proxy-sign-out-visit/" + key, What: what, Scenario: "proxy-sign-out-visit", Choices: x.Choices(), Detail: d})
 		}
-		c.Res.Outcome(fmt.Sprintf("visit|%s|%s|%s|%s|%s|%s|%d", pn, pv, method, visit.name, hostV, earlier, r.Status))
+		c.Res.Outcome(fmt.Sprintf("visit|%s|%s|%s|%s|%s|%s|%s|%d", pn, pv, method, visit.name, hostV, earlier, cookieHost, r.Status))
 		if ck := r.Cookie(harness.CookieName); ck == nil || ck.Value != "" {
 			viol("keeps-cookie", "the proxy's sign-out response does not clear the session cookie")
 		}
@@ -441,8 +454,8 @@ func init() {
 		Level: "model_checking",
 		Rule: "every history of the family: IdP issuing {a refresh token, none}; full browser login through the REAL proxy -> REAL authenticator (back channel over loopback) -> scripted stateful IdP (9 requests), optionally (an hour later, so that the authenticator's own cookie is past its lifetime while the proxy session lives on) a token refresh through the authenticator and a further revalidation of the proxy session, sign-out at the proxy (plain, or carrying X-Forwarded-Host naming a foreign / sibling host, or X-Forwarded-Proto), GET of the signed authenticator URL, POST confirmation with {session cookie, no cookie, forged cookie} x signed URL {fresh, replayed after 1 s, replayed after 301 s, tampered signature, tampered return address, re-signed out-of-domain return address} x IdP revoke outcome {200, 400, 401, 403, 404, 429, 500, 503, connection reset, first request 503 and any later one 200}, then reuse of the saved proxy cookie after {10 s, validity TTL + 10 s (thorough: token lifetime + 100 s, one day)}; " +
 			"oracle = combined-state model: proxy clears its cookie and sends the browser to the authenticator with a return address on the same host that the authenticator's own checks accept; the authenticator clears its cookie and returns the browser only after the IdP accepted the revocation, otherwise >= 500 page and cookie kept; nothing happens for an invalid signed URL; after a successful revoke the old proxy cookie is refused at the first request whose revalidation is due; " +
-			"(proxy-sign-out-visit) the visit alone x query parameter {none, rd, redirect_uri, redirect, return_to, next, url, continue} x value {scheme-relative sibling / foreign host, absolute foreign, backslash form, a path, bare host, percent-encoded slashes, scheme without slashes, triple slash} x {GET, POST with the same form body} x the header variants x host {a simple route, one host of a rewrite-routed upstream} x an earlier sign-out {none, on a sibling host of the same upstream, on this host}: cookie cleared, 302 to the authenticator's sign_out, exactly one return address, sig = HMAC over (return address, ts = now), return address on the request host under both URL readings; " +
-			"(provider-revocation) GoogleProvider.Revoke and OktaProvider.Revoke at their own API against 12 identity-provider answers x session {with, without} refresh token: success may be reported only for a 200 or the documented already-revoked answer; states = histories executed (each on the real code, so also traces_validated_against_impl), transitions = requests; distinct_nontrivial = distinct (revoke outcome, confirmation kind, URL kind, reuse gap, status, cleared, revoked, served)",
+			"(proxy-sign-out-visit) the visit alone x query parameter {none, rd, redirect_uri, redirect, return_to, next, url, continue} x value {scheme-relative sibling / foreign host, absolute foreign, backslash form, a path, bare host, percent-encoded slashes, scheme without slashes, triple slash} x {GET, POST with the same form body} x the header variants x host {a simple route, one host of a rewrite-routed upstream} x an earlier sign-out {none, on a sibling host of the same upstream, on this host} x the presented session cookie issued for {this host, a sibling host, another upstream's host}: cookie cleared, 302 to the authenticator's sign_out, exactly one return address, sig = HMAC over (return address, ts = now), return address on the request host under both URL readings; " +
+			"(provider-revocation) GoogleProvider.Revoke and OktaProvider.Revoke at their own API against 12 identity-provider answers x session {with, without} refresh token x token shape {plain, standard base64, with '&', '=', ';', '%' and a blank}: success may be reported only for a 200 or the documented already-revoked answer, and only if the identity provider was asked about one of the session's tokens, character for character; states = histories executed (each on the real code, so also traces_validated_against_impl), transitions = requests; distinct_nontrivial = distinct (revoke outcome, confirmation kind, URL kind, reuse gap, status, cleared, revoked, served)",
 		Assumptions:    []string{"Okta flavour; the IdP is scripted but stateful (a revoked token is reported inactive afterwards)", "virtual clock shared by both services"},
 		QuickBudget:    5 * time.Minute,
 		ThoroughBudget: 10 * time.Minute,
